@@ -214,6 +214,16 @@ Lemma guard_reachable :
   find (monos_on Hx Px) (Cfg 2 0 3 true false) Hx Px = [].
 Proof. repeat split; vm_compute; reflexivity. Qed.
 
+Example ex_components : comps Hx = [[1; 2; 3]; [4; 5]]%N /\ comps Px = [[10]; [11]]%N.
+Proof. split; vm_compute; reflexivity. Qed.
+
+(** pre-filter exits: no candidate for a pattern node (nitrogen), and the estimate guard (threshold 0) *)
+Definition Pn : graph := LG [(10%N, ([3%N], 0%N))] [].
+Example ex_prefilter_empties :
+  quick_pre_filter Hx Pn 5000 = true /\ find (monos_on Hx Pn) (Cfg 0 0 5000 true true) Hx Pn = [] /\
+  quick_pre_filter Hx Px 0 = true.
+Proof. repeat split; vm_compute; reflexivity. Qed.
+
 Example ex_prefilter :
   find (monos_on Hx Px) (Cfg 1 0 5000 true true) Hx Px = ex_comp.
 Proof. vm_compute. reflexivity. Qed.
